@@ -187,7 +187,9 @@ def harness(cx, cfg):
             path = OsPath
         ld = loader.Loader(stubs={"esutil.recfile.records": mod, "os": Os, "os.path": OsPath}, builtin_overrides={"open": recmodel.make_open(vfs)})
         sf = ld.get("esutil.sfile")
-        t = _table(cx, order)
+        t = _table(cx, order, 3 if cx.flag("table_is_a_view") else 2)
+        if t.size == 3:
+            t = t[0:2]          # the caller hands over a contiguous row slice of a longer table
         dt0 = t.dtype
 
         def run():
@@ -524,7 +526,18 @@ def replay(cand):
                         r.write(t)
             r = trial("%s of a %s-endian table to a %s file" % (how, "big" if order == ">" else "little", "text" if delim else "binary"),
                       "recwrite:%s:%s" % ("text" if delim else "binary", "swapped" if order == ">" else "native"), [("table", t)], call, allow=())
-            return r or no
+            if r:
+                return r
+            # the same through arguments that do not own their memory: a row slice, a recarray view, a reshape
+            big = np.zeros(5, dtype=t.dtype)
+            big[:3] = t
+            for nm, v in (("a row slice", big[0:3]), ("a recarray view", big.view(np.recarray)), ("a reshaped view", big.reshape(5, 1)[:, 0])):
+                t = v
+                r = trial("%s of a %s-endian table that is %s to a %s file" % (how, "big" if order == ">" else "little", nm, "text" if delim else "binary"),
+                          "recwrite:%s:%s:view" % ("text" if delim else "binary", "swapped" if order == ">" else "native"), [("table", v), ("its base", big)], call, allow=())
+                if r:
+                    return r
+            return no
         finally:
             shutil.rmtree(d, ignore_errors=True)
     if fam == "cxx_textwrite":
